@@ -48,7 +48,7 @@ TABLE = {
          "Shared prefixes with pending constraints (disequalities, plusz/timesz, FD domains, distinctfd) and user-state updates followed by 2-3 branches from the same vocabulary; the user counter is exposed as a query variable when some goal updates it. A second family posts FD constraints before any domain, aims the branches' bindings at one prefix constraint (violate / satisfy / unrelated) and posts the domains after the disjunction. Exploration.",
          "Implementation compared with itself; answers compared up to renaming and constraint equivalence."),
  "C11": (PBT + " against the reference interpreter (project = body evaluated on the walked value per state); failures with >=2 states reaching the goal are the listed known finding",
-         "Programs where 0-4 states reach a project goal with non-relational fngoal bodies (also resumed later); multiset equality with the reference and no panic. The single-state cases are fully checked; multi-state cases hit C11-project-reached-twice. Exploration.",
+         "Programs where 0-4 states reach a project goal with non-relational fngoal bodies (also resumed later); multiset equality with the reference and no panic. The single-state cases are fully checked (also with alias chains and projected terms of hundreds of levels); multi-state cases hit C11-project-reached-twice. Exploration.",
          REFI),
  "C12": (PBT + ": metamorphic relation for-loop vs explicit per-element conjunction, plus reference interpreter (tree bodies)",
          "everyg with collections of 0-4 terms (Vec and LTerm list), bodies over the loop variable, query variables and a body-local fresh variable on which the body may make its own choice (tree and FD bodies); a second family uses collections of up to 400/2000 elements. Exploration. The surface `for` form is covered by C14's compile pipeline.",
@@ -87,7 +87,7 @@ TABLE = {
          "No panic other than the step-budget payload on several hundred thousand generated well-formed programs per run (overflow checks and debug assertions on), including programs with one large dimension (terms, chains of bindings, stored constraints, clauses, recursion depth, domain width in the hundreds). Exploration.",
          "Well-formedness is enforced by construction in the generators."),
  "C24": (PBT + " (solution-first generation, every argument mode) against Vec-based definitions; exhaustive ground mode and one-hole modes over lists of length <=3 over {1,2} in thorough",
-         "Each of the ten list relations is queried in ground, partially ground and fresh modes derived from constructed solutions and perturbed non-solutions; soundness of every answer instance, ground-mode equivalence, documented multiplicities of member/member1, coverage of the seed solution in finite modes. permute's sub-list answers are the listed known finding. Exploration plus an enumerated sub-space.",
+         "Each of the ten list relations is queried in ground, partially ground and fresh modes derived from constructed solutions and perturbed non-solutions (a second family: lists of up to 150/600 elements in ground, one-argument-fresh, element-hole and open-tail modes); soundness of every answer instance, ground-mode equivalence, documented multiplicities of member/member1, coverage of the seed solution in finite modes. permute's sub-list answers are the listed known finding. Exploration plus an enumerated sub-space.",
          "Trusts model/listrel.rs (60 lines)."),
 }
 CLAIMED = {k: (TABLE[k][0], TABLE[k][1], TABLE[k][2], "DESIGN.md §7 " + k) for k in IMPLEMENTED}
